@@ -71,6 +71,9 @@ def check_contents(ctx, h, sh, what, items_upto):
     bad = world.oracle_forest(w)
     if bad:
         return "ownership inconsistent: " + "; ".join(bad[:2])
+    bad = world.oracle_cache(w, h.uuids)
+    if bad:
+        return "UUID table inconsistent: " + "; ".join(bad[:2])
     return None
 
 
@@ -94,6 +97,36 @@ def step_set(ctx, g, h, sh, rng):
 
     def some(k):
         return [pick() for _ in range(k)]
+    if rng.random() < 0.12:
+        # the built-in set interface accepts ANY hashable where membership is tested or an element is removed: nodes of other kinds
+        # (e.g. a symbol passed to sections.discard) and non-node values must behave as absent elements and be left alone.
+        # (Not replayed on the model: its guard types the arguments.)
+        others = [n for k in KINDS if k not in kinds and k != "IR" for n in h.by_kind[k]]
+        vals = [O[x] for x in rng.sample(others, min(len(others), 2))] + [rng.choice([42, "name", None, (1, 2)])]
+        v = rng.choice(vals)
+        opn = rng.choice(["discard", "remove", "contains", "isub", "iand", "sub", "and", "isdisjoint", "le"])
+        ctx.count("foreign." + opn)
+        desc = "n%d.%s %s <foreign %s>" % (p, f, opn, type(v).__name__)
+        memo = set(O[x] for x in mem)
+        holder = {"c": coll}
+
+        def f_isub():
+            c = holder["c"]
+            c -= {v}
+
+        def f_iand():
+            c = holder["c"]
+            c &= (memo | {v})
+        fi = {"discard": lambda: coll.discard(v), "remove": lambda: coll.remove(v), "contains": lambda: v in coll,
+              "isub": f_isub, "iand": f_iand,
+              "sub": lambda: set(w.n(x) for x in (coll - {v})), "and": lambda: set(w.n(x) for x in (coll & (memo | {v}))),
+              "isdisjoint": lambda: coll.isdisjoint({v}), "le": lambda: coll <= (memo | {v})}[opn]
+        want = {"discard": ("ok", None), "remove": ("err", "KeyError"), "contains": ("ok", False), "isub": ("ok", None), "iand": ("ok", None),
+                "sub": ("ok", set(mem)), "and": ("ok", set(mem)), "isdisjoint": ("ok", True), "le": ("ok", True)}[opn]
+        ri = call(g, fi)
+        if ri != want:
+            return desc, "returns/raises %s, the built-in %s" % (ri, want)
+        return desc, None
     m = rng.choice(SETM + ["pure"] * 6)
     ctx.count("set." + m)
     desc = None
